@@ -50,7 +50,7 @@ STRUCTURED = {'line', 'rect', 'box', 'prod', 'prod3', 'prodm'}
 ACTIONS = ['Refine', 'SetGeom', 'SetField', 'EvalInterior', 'EvalBoundary', 'EvalInterfaces', 'EvalBoundaryField', 'Integrate', 'RefineIntegrals']
 INVARIANTS = ['TypeOK', 'GradIsDerivative', 'SurfGradProjects', 'SurfGradBoundary', 'MeasureIsGram', 'NormalOrthogonal', 'NormalOutward',
               'NormalRoutes', 'ExteriorOrthogonal', 'InterfaceOpposite', 'DivTheoremElem', 'DivTheoremMesh', 'VolumePositive', 'PerSpace',
-              'ProductGradient', 'BoundaryFieldTangential', 'BoundarySurfGrad']
+              'ProductGradient', 'BoundaryFieldTangential', 'BoundarySurfGrad', 'CoarseMeasure']
 
 RTOL = 2e-10
 # several TLC processes run side by side: do not let every JVM start one GC / JIT thread per core
@@ -393,7 +393,8 @@ def _replay(name, level, stage, snaps, out, fail):
                             cmp('J-per-space', vals['js', a][ip] ** 2, float(fr(r['js'][a])))
                     if Gh is not None:
                         cmp('coarse-geometry', vals['Xh'][ip], fl(r['X']))
-                        cmp('coarse-geometry-J', vals['Jh'][ip] ** 2, j2, scale=j2)
+                        jc2 = float(fr(r['jc2'])) if 'jc2' in r else j2
+                        cmp('coarse-geometry-J', vals['Jh'][ip] ** 2, jc2, scale=jc2)
                         if 'gh' in vals:
                             cmp('coarse-geometry-grad', vals['gh'][ip], g[0])
                 if stage == 'interior' and n == m + 1 and k == 0:
@@ -680,9 +681,9 @@ def choose_constants(tier, rng):
         core = {2, 3, 6, 8, 10, 12, 14, 16, 20}
         extra = set(rng.sample([g for g in range(1, 22) if g not in core], 2))
         fields = {rng.choice([2, 3]), rng.choice([7, 8, 10]), rng.choice([13, 14])}
-        # a product of three one-dimensional spaces or of a two- and a one-dimensional space, with a separable map for the
-        # per-space operators
-        prod3d, sepgeom = rng.choice([('prod3', 22), ('prodm', 23)])
+        # a product of three one-dimensional spaces with a separable map for the per-space operators (the product of a two-
+        # and a one-dimensional space: thorough tier)
+        prod3d, sepgeom = 'prod3', 22
         return dict(MeshNames=['line', 'rect', 'tri', 'prod', 'box', 'tet', prod3d], RefineOn=['line', 'tri'], MaxLevel=1, Refine2On=['line'], GeomIds=sorted(core | extra),
                     FieldIds=sorted(fields), Lattice=2, Lattice3=1, IntegrateOn=['line', 'rect', 'tri', 'tet'],
                     BFieldOn=['rect', 'tri', 'box', 'tet'], RefineOnB=['tet'], ProdGeomIds=[rng.choice([12, 14]), sepgeom], ProdFieldIds=sorted(fields))
@@ -693,7 +694,7 @@ def choose_constants(tier, rng):
 
 def _groups(meshes, quick):
     """the state graphs of different base meshes are disjoint: they are explored by concurrent TLC runs"""
-    parts = [['line', 'rect', 'prod'], ['tri'], ['box', 'tet', 'prod3', 'prodm']] if quick else [['line', 'rect', 'prod'], ['tri', 'prodm'], ['box', 'prod3'], ['tet']]
+    parts = [['line', 'rect', 'prod', 'box'], ['tri'], ['tet', 'prod3', 'prodm']] if quick else [['line', 'rect', 'prod'], ['tri', 'prodm'], ['box', 'prod3'], ['tet']]
     return [g for g in ([m for m in part if m in meshes] for part in parts) if g]
 
 
@@ -701,8 +702,10 @@ def _groups(meshes, quick):
 def _mutants(consts, quick):
     tetb = dict(consts, MeshNames=['tet'], RefineOn=[], Refine2On=[], RefineOnB=['tet'], GeomIds=[12], FieldIds=[13], IntegrateOn=[], BFieldOn=['tet'], ProdGeomIds=[], ProdFieldIds=[])
     prod = dict(consts, MeshNames=['prod', 'prod3'], RefineOn=[], Refine2On=[], RefineOnB=[], GeomIds=[6], FieldIds=[7], IntegrateOn=[], BFieldOn=[], ProdGeomIds=[12], ProdFieldIds=[13])
+    line2 = dict(consts, MeshNames=['line'], RefineOn=['line'], Refine2On=['line'], RefineOnB=[], GeomIds=[3], FieldIds=[2], IntegrateOn=[], BFieldOn=[], ProdGeomIds=[], ProdFieldIds=[])
     out = [('diag-gram', tetb, ['BoundaryFieldTangential'], {'BoundaryFieldTangential'}),
-           ('same-block', prod, ['ProductGradient'], {'ProductGradient'})]
+           ('same-block', prod, ['ProductGradient'], {'ProductGradient'}),
+           ('whole-chain', line2, ['CoarseMeasure'], {'CoarseMeasure'})]
     if not quick:
         small = dict(consts, MeshNames=['rect', 'tri'], RefineOn=['tri'], Refine2On=[], RefineOnB=[], GeomIds=[6, 8], FieldIds=[7], IntegrateOn=['rect', 'tri'], BFieldOn=['tri'], ProdGeomIds=[], ProdFieldIds=[])
         out += [('inv-transpose', small, INVARIANTS, {'GradIsDerivative', 'SurfGradProjects', 'NormalRoutes', 'PerSpace'}),
@@ -747,6 +750,8 @@ def run(rep):
         mut, c, invs, expect = mutants[im]
         return tlc.run('MCGeometry', cfg_text=make_cfg(c, mutant=mut, invariants=invs, emit=False, table=False), tag='c08-mutant-' + mut, workers=2, deadlock=False,
                        env=dict(VF_TABLE=path, JAVA_TOOL_OPTIONS=JAVA_OPTS), timeout=900, heap='2g')
+    import resource
+    ru0 = resource.getrusage(resource.RUSAGE_CHILDREN)
     with ThreadPoolExecutor(len(groups) + len(mutants)) as pool:
         dfut = [pool.submit(design, ig) for ig in range(len(groups))]
         mfut = [pool.submit(mutant, im) for im in range(len(mutants))]
@@ -762,6 +767,8 @@ def run(rep):
         if r.violated not in expect:
             raise RuntimeError('spec mutant {} is not caught by the expected invariants (TLC reports {})'.format(mut, r.violated))
         rep.extra.setdefault('spec_mutants_caught', {})[mut] = r.violated
+    ru1 = resource.getrusage(resource.RUSAGE_CHILDREN)
+    rep.extra['tlc_cpu_s'] = round(ru1.ru_utime + ru1.ru_stime - ru0.ru_utime - ru0.ru_stime, 1)   # all TLC processes together
     rep.lap('TLC design runs + spec mutants')
     snaps = [e for e in emitted if 'stage' in e]
     # vacuity guard: action coverage counted from the emitted states (TLC -coverage runs out of memory on recursive operators)
